@@ -36,10 +36,13 @@ __CPROVER_requires(__CPROVER_is_fresh(tensor, sizeof(*tensor))) \
 __CPROVER_assigns() \
 __CPROVER_ensures(__CPROVER_return_value == tensor->n)
 
-/* rank-2 tensor in the (rank 1, rank 2, rank 1) instantiation that solver/bundle.h uses: one opaque token per row.
- * detail::copy on it is `tensor.tensor(idst) = tensor.tensor(isrc)` (assignment of tensor_map_t temporaries: C++ object
- * semantics, not extracted); its ASSUMED contract is "row idst becomes row isrc, nothing else changes", with the asserted
- * row range as the checked precondition -- i.e. rows behave like elements */
+/* rank-2 tensor in the (rank 1, rank 2, rank 1) instantiation that solver/bundle.h uses: one opaque token per row (the
+ * ABSTRACTION of this target: a row is followed as a whole).  detail::copy on it is `tensor.tensor(idst) = tensor.tensor(isrc)`;
+ * its contract "row idst becomes row isrc, nothing else changes" is no longer assumed: it is PROVED on the SMT side
+ * (specs/C16/tspec.py `detail::copy<2>`, `detail::copy<3>`: for 0 <= isrc, idst < size<0>() exactly one block copy, from offset
+ * isrc * P_1 to offset idst * P_1, P_1 coefficients, both blocks inside the tensor's own buffer, equal sizes and no partial
+ * overlap) on top of the storage contract of mapping = mapping (storage_t_map_move_assign / storage_ms_copy_m: coefficient k
+ * := coefficient k).  The asserted row range stays the checked precondition of the call. */
 struct nv_t2d { double* p; int64_t n; };
 static void nv_copy_rows(int64_t isrc, int64_t idst, struct nv_t2d* tensor)
 {
